@@ -187,6 +187,7 @@ def hypergraph_static(level="full"):
     A("H.set_edge_attributes({0: {'w': 2}, 9: {'w': 3}})")
     A("H.set_edge_attributes(1.5, name='w')")
     A("H.set_edge_attributes({0: 7}, name='w')")
+    A("H.set_edge_attributes({0: 0, 1: 0.0, 2: 0, 'e': -1}, name='w')")  # falsy and negative weights
     # unknown IDs at every position of the mapping (documented: ignored / warned about, the known ones are still set)
     A("H.set_edge_attributes({9: 7, 0: 8, 2: 9}, name='w')")
     A("H.set_edge_attributes({0: 8, 9: 7, 2: 9}, name='w')")
@@ -518,6 +519,7 @@ def dihypergraph_static():
     A("H.set_node_attributes(5, name='x')")
     A("H.set_edge_attributes({0: {'w': 2}, 9: {'w': 3}})")
     A("H.set_edge_attributes(1.5, name='w')")
+    A("H.set_edge_attributes({0: 0, 1: 0.0, 2: 0, 'e': -1}, name='w')")  # falsy and negative weights
     # unknown IDs at every position of the mapping (documented: ignored / warned about, the known ones are still set)
     A("H.set_edge_attributes({9: 7, 0: 8, 2: 9}, name='w')")
     A("H.set_edge_attributes({0: 8, 9: 7, 2: 9}, name='w')")
@@ -668,6 +670,7 @@ def simplicial_static():
     A("H.cleanup(isolates=True, connected=False, relabel=False)")
     A("H.set_node_attributes({1: {'c': 1}})")
     A("H.set_edge_attributes(1.5, name='w')")
+    A("H.set_edge_attributes({0: 0, 1: 0.0, 2: 0, 'e': -1}, name='w')")  # falsy and negative weights
     # unknown IDs at every position of the mapping (documented: ignored / warned about, the known ones are still set)
     A("H.set_edge_attributes({9: 7, 0: 8, 2: 9}, name='w')")
     A("H.set_edge_attributes({0: 8, 9: 7, 2: 9}, name='w')")
